@@ -227,7 +227,24 @@ def hashdiff(job, prop, case=None):
 # ----------------------------------------------------------------------
 # C11
 
+def _coterminating(case):
+    ends = {}
+    for o in case['observations']:
+        e = o['start'] + o['duration']
+        ends[e] = ends.get(e, 0) + 1
+    last = max(ends)
+    return ends[last] >= 3
+
+
 def gen_pause_case(rng, tier):
+    if rng.random() < 0.25:
+        # a backlog at the end of the plan: >=3 observations whose ingests end in the same,
+        # last step (the scheduler queues one observation per step)
+        for _ in range(60):
+            case = gen.gen_case(rng, 'simul', rng.choice(gen.PAIRINGS), tier=tier,
+                                delays=rng.choice(['none', 'fixed']))
+            if gen.feasible(case) and _coterminating(case):
+                return case
     for _ in range(40):
         st = rng.choice(['benign', 'contend', 'simul', 'zero', 'benign'])
         pairing = rng.choice(gen.PAIRINGS)
@@ -249,8 +266,12 @@ def pause(job, prop, case=None):
            'nontrivial': False, 'events': 0, 'outcome': 'pause', 'evaluations': 0,
            'extra_nontrivial': []}
     spec = None
+    interleave_spec = None
+    poke_spec = None
     if case is not None and 'pause_schedule' in case:
         spec = case['pause_schedule']
+        interleave_spec = case.get('interleave')
+        poke_spec = case.get('poke')
         case = case['case']
     if case is None:
         case = gen_pause_case(rng, job['tier'])
@@ -275,12 +296,12 @@ def pause(job, prop, case=None):
         scheds = [spec]
     else:
         ks = set([1, T - 1, T] if T > 1 else [1])
-        interesting = sorted(t + 1 for t in ev_times if 1 <= t + 1 <= T)
+        interesting = sorted(set(t + d for t in ev_times for d in (1, 2) if 1 <= t + d <= T))
         pool = list(range(1, T + 1))
         if job['tier'] == 'thorough' and T <= 40:
             ks = set(pool)
         else:
-            for _ in range(2):
+            for _ in range(3):
                 if interesting:
                     ks.add(rng.choice(interesting))
             while len(ks) < min(6, T):
@@ -292,8 +313,24 @@ def pause(job, prop, case=None):
             if T > k and (not rest or rest[-1] != T):
                 rest.append(T)
             scheds.append([k] + rest)
-    for sch in scheds:
-        res, tr = sim.run_case(case, bound=min(B, 100), schedule=sch, workdir=wd)
+    other = case.get('_interleave_with') if isinstance(case, dict) else None
+    for n_s, sch in enumerate(scheds):
+        inter = None
+        if spec is None and n_s % 3 == 1:
+            inter = gen_pause_case(random.Random(job['seed'] + n_s), job['tier'])
+        elif spec is not None and interleave_spec is not None:
+            inter = interleave_spec
+        poke = (n_s % 3 == 2) if spec is None else bool(poke_spec)
+        res, tr = sim.run_case(case, bound=min(B, 100), schedule=sch, workdir=wd,
+                               interleave=inter, poke=poke)
+        if poke:
+            out['cnt']['c11_poked_runs'] = out['cnt'].get('c11_poked_runs', 0) + 1
+            for v in tr.viol:
+                if v['prop'] == 'C11' and prop == 'C11':
+                    out['viol'].append(dict(v, history={'case': case, 'pause_schedule': sch,
+                                                        'poke': True}))
+        if inter is not None:
+            out['cnt']['c11_interleaved_runs'] = out['cnt'].get('c11_interleaved_runs', 0) + 1
         out['evaluations'] += 1
         out['cnt']['c11_paused_runs'] = out['cnt'].get('c11_paused_runs', 0) + 1
         k = sch[0]
@@ -301,7 +338,7 @@ def pause(job, prop, case=None):
         if in_event_step:
             out['cnt']['c11_pause_after_event_step'] = \
                 out['cnt'].get('c11_pause_after_event_step', 0) + 1
-        wit = {'case': case, 'pause_schedule': sch}
+        wit = {'case': case, 'pause_schedule': sch, 'interleave': inter, 'poke': poke}
         got = canonical(res)
         d = first_diff(ref, got) if prop == 'C11' else None
         if d is not None:
